@@ -684,7 +684,7 @@ def run(ctx):
                 nviol += 1
                 if nviol <= 5:
                     stats0 = dict(stats)
-                    law = [what for what, fid in oracle_P(ctx, w, il[wi], stats0) if fid is None]
+                    law = [what for what, fid in oracle_P(ctx, w, il[wi], stats0) if fid is None or fid not in ctx.known]
                     ctx.violation("C08 correspondence: %s%s" % ("; ".join(bad[:3]), ("; property law broken: " + law[0]) if law else ""),
                                   "corr_%d.json" % nviol,
                                   {"mode": "P", "case": lines[wi], "world": _json(w), "impl": il[wi], "model": ml[wi], "problems": bad[:20],
